@@ -19,10 +19,10 @@ def nontrivial(line):
     # distinct non-empty matrices / end-to-end cases (kind, rows, contents, threshold)
     f = _fields(line)
     if f.get("k") == "e2e":
-        return ("e2e", f.get("pssm"), f.get("seq")) if f.get("seq", "-") != "-" else None
-    if f.get("m", "-") == "-":
+        return ("e2e", f.get("pssm"), f.get("seq"), f.get("rr"), f.get("dt"), f.get("t")) if f.get("seq", "-") != "-" else None
+    if f.get("m", "-") == "-" and "h" not in f:
         return None
-    return (f.get("k"), f.get("t"), f.get("R"), f.get("p"), hash(f.get("m")))
+    return (f.get("k"), f.get("t"), f.get("R"), f.get("p"), f.get("h"), f.get("w"), hash(f.get("m")))
 
 
 def histogram(line):
@@ -33,6 +33,8 @@ def histogram(line):
         l = 0 if f.get("seq", "-") == "-" else len(f["seq"])
         keys.append("e2e:L<=%d" % (32 * ((l + 31) // 32)))
         keys.append("e2e:M=%d" % (f.get("pssm", "").count("/") + 1))
+        if "rr" in f:
+            keys.append("e2e:ranges(reused buffer)" + (":u8" if f.get("dt") == "u8" else ":f32"))
         return keys
     r = int(f.get("R", "0"))
     for b in (0, 1, 2, 8, 64, 300, 1000, 3000, 32768, 70000):
@@ -43,6 +45,23 @@ def histogram(line):
         keys.append("max_index>u32::MAX")
     if f.get("m", "").startswith("@"):
         keys.append("compact(tall)")
+    if "h" in f:
+        keys.append("history")
+        ops = [o for o in f["h"].split(";") if o]
+        rows = []
+        for o in ops:
+            if o[0] in "rd":
+                rows.append(int(o[1:].split(":")[0]))
+            elif o[0] == "S":
+                a, b = o[2:].split("-")
+                rows.append(int(b) - int(a))
+                keys.append("history:score_rows_into")
+        if rows and max(rows) > r:
+            keys.append("history:held-more-rows")
+        if rows and rows[-1] < r:
+            keys.append("history:final-resize-grows")
+        if "w" in f:
+            keys.append("history:partial-rewrite")
     return keys
 
 
